@@ -695,6 +695,16 @@ package ast
 // inside a string literal no character is pushed back (only the end of input is): an escape that turns out
 // incomplete keeps its characters, it does not hand them back to the string state
 //@   atcall unread_last instring: (current_state == SSTRING_DOUBLE || current_state == SSTRING_SINGLE || current_state == SSTRING_D_ESCAPE || current_state == SSTRING_S_ESCAPE) ==> ch == 0 [C16]
+// every step taken in an escape state appends to the token text (the escaped character, the byte of a
+// complete \xHH, or the x of an incomplete one): G is the growth of the text in the previous step, PS the
+// state that step started in (TL, ST: text length and state at the loop head)
+//@   loop 1 ghost TL Int := len(addr(buf).content) ;; len(addr(buf).content)
+//@   loop 1 ghost G Int := 0 ;; len(addr(buf).content) - TL
+//@   loop 1 ghost ST Int := current_state ;; current_state
+//@   loop 1 ghost PS Int := SSTART ;; ST
+//@   loop 1 invariant escgrows: TL == len(addr(buf).content) && ST == current_state && ((PS == SSTRING_D_ESCAPE || PS == SSTRING_S_ESCAPE) ==> G >= 1) [C16]
+// and a step that starts and ends in the same string state has appended the character it read
+//@   loop 1 invariant strgrows: ((PS == SSTRING_DOUBLE || PS == SSTRING_SINGLE) && ST == PS) ==> G >= 1 [C16]
 //@   atcall WriteRune plain: (current_state == SSTRING_DOUBLE || current_state == SSTRING_SINGLE) ==> arg1 == ch [C16]
 //@   atcall WriteRune escape: (current_state == SSTRING_D_ESCAPE || current_state == SSTRING_S_ESCAPE) && !defined(hex) ==> ch != 'x' && arg1 == escOf(ch) [C16]
 //@   atcall WriteRune hex: (current_state == SSTRING_D_ESCAPE || current_state == SSTRING_S_ESCAPE) && defined(hex) ==> ch == 'x' && ((len(hex) == 2 && isHexC(hex[0]) && isHexC(hex[1])) ? arg1 == 16 * hexVal(hex[0]) + hexVal(hex[1]) : (arg1 == 'x' && s.r.pos >= 1 && sat(s.r.data, s.r.pos - 1) == 'x')) [C16]
